@@ -844,7 +844,15 @@ pub fn op_enc2(args: &[&str]) -> String {
         let r = block_on(fsm::encode_ranges(Bytes::from(data.clone()), &mut ob.clone(), q, &mut o));
         same.push_str(b01(r.is_ok() && o == e1));
     }
-    format!("{} {} {} {} {}", dig(&e1), dig(&e2), fin(r), fin(r2), same)
+    // and through the decoder built with a caller supplied buffer (documented as "the same as new")
+    let mut r3 = "Done".to_string();
+    for item in sync::DecodeResponseIter::new_with_buffer(ob.root, tree, &e2[..], &q1, BytesMut::with_capacity(64)) {
+        if let Err(e) = item {
+            r3 = dec_err(&e);
+            break;
+        }
+    }
+    format!("{} {} {} {} {} {}", dig(&e1), dig(&e2), fin(r), fin(r2), same, r3)
 }
 
 /// extended corruption: `d<pos>^x`, `o<pos>^x`, `r<pos>^x` (root), `Zd<a>:<len>` / `Zo<a>:<len>` (zero a region)
